@@ -35,3 +35,45 @@ m("rt_unregister_keeps_policy", ["C18"], R, "        if client in self.blob_rout
 m("rt_default_also", ["C05"], R, "DEFAULT_BLOB_POLICY = const.BLOBEnable.NEVER", "DEFAULT_BLOB_POLICY = const.BLOBEnable.ALSO", "default policy Also")
 m("rt_no_sender_excl_cli", ["C05", "C04"], R, "                if not client == sender:\n", "                if True:\n", "device message handed back to the sending client-endpoint")
 m("rt_register_resets_nothing", [], R, "        self.clients.append(client)\n        self.blob_routing[client] = {}", "        self.clients.append(client)\n        self.blob_routing.setdefault(client, {})", "equivalent unless unregister keeps policy (control)")
+
+ST = "indi/transport/server/tcp.py"
+TT = "indi/transport/server/tty.py"
+CT = "indi/transport/client/tcp.py"
+m("tcp_close_no_unregister", ["C18"], ST, "        self.writer.close()\n        if self.router:\n            self.router.unregister_client(self)", "        self.writer.close()", "closed connections stay registered with the router")
+m("tcp_no_catch_all", ["C18"], ST, "            try:\n                await conn.wait_for_messages()\n            except:\n                logger.exception(\"Error in client handler loop\")\n", "            await conn.wait_for_messages()\n", "an error in the receive loop skips close()")
+m("tcp_connections_not_removed", ["C18"], ST, "            conn.close()\n            cls.connections.remove(conn)", "            conn.close()", "class-level connection list grows")
+m("tcp_eof_returns_before_close", ["C18"], ST, "            if not message:\n                logger.debug(f\"TCP: no data, breaking\")\n                break", "            if not message:\n                logger.debug(f\"TCP: no data, breaking\")\n                await asyncio.Event().wait()", "EOF leaves the handler parked for ever: never closed, never unregistered")
+m("tcp_writer_not_closed", ["C18"], ST, "        self.writer.close()\n        if self.router:", "        if self.router:", "close() forgets to close the transport")
+m("tcp_send_no_lock", ["C19"], ST, "        async with self.sender_lock:\n            logger.debug(\"TCP: sending data: %s\", data)\n            self.writer.write(data)\n            await self.writer.drain()", "        await self.writer.drain()\n        self.writer.write(data)", "drain before write without the lock: order depends on drain completion")
+m("tcp_send_tasks_lifo", ["C19"], ST, "        asyncio.get_running_loop().create_task(self.send(data))", "        asyncio.get_running_loop().call_later(0.0001 * (1000 - len(data) % 7), lambda: asyncio.ensure_future(self.send(data)))", "send start delayed by a data-dependent amount")
+m("tty_write_no_lock", ["C19"], TT, "        async with self.sender_lock:\n            await self.stdout.write(data)\n            await self.stdout.flush()", "        await self.stdout.write(data)\n        await self.stdout.flush()", "F17 regression: unserialised TTY writes")
+m("cli_send_no_lock", ["C19"], CT, "        async with self.sender_lock:\n            logger.debug(\"TCP: sending data: %s\", data)\n            self.writer.write(data)\n            await self.writer.drain()", "        await self.writer.drain()\n        self.writer.write(data)", "client side: drain before write without the lock")
+m("tty_close_no_unregister", ["C18"], TT, "    def close(self):\n        self.router.unregister_client(self)", "    def close(self):\n        pass", "TTY handler stays registered after stdin EOF")
+
+DR = "indi/device/driver.py"
+IV = "indi/device/properties/instance/vectors.py"
+IE = "indi/device/properties/instance/elements.py"
+IG = "indi/device/properties/instance/group.py"
+m("el_value_setter_silent", ["C01", "C06"], IE, "        self._value = self.check_value(value)\n        self.device.send_message(self._vector.to_set_message())", "        self._value = self.check_value(value)", "assignments are no longer published")
+m("vec_enabled_sends_only_set", ["C01"], IV, "        self._enabled = value\n        self.device.send_message(self.to_def_message())\n        self.device.send_message(self.to_set_message())", "        self._enabled = value\n        self.device.send_message(self.to_set_message())", "enabling/disabling a vector publishes no def/del")
+m("group_enabled_skips_def", ["C01"], IG, "            self.device.send_message(v.to_def_message())\n", "", "enabling/disabling a group publishes no def/del")
+m("set_message_omits_last", ["C01", "C06"], IV, "        elements = tuple(\n            e.to_set_message() for k, e in self._elements.items() if e.enabled\n        )\n        return self.set_message_class(", "        elements = tuple(\n            e.to_set_message() for k, e in self._elements.items() if e.enabled\n        )[:-1] or tuple(e.to_set_message() for k, e in self._elements.items() if e.enabled)\n        return self.set_message_class(", "updates omit the last element when there are several")
+m("state_setter_silent_when_same", ["C01"], IV, "        self._state = checks.dictionary(value, const.State)\n        self.device.send_message(self.to_set_message())", "        old = self._state\n        self._state = checks.dictionary(value, const.State)\n        if old != 'Alert':\n            self.device.send_message(self.to_set_message())", "state changes away from Alert are not published")
+m("inherit_direct_bases_only", ["C01"], DR, "                    **cast(Type[Driver], base)._all_group_definitions(),", "                    **cast(Type[Driver], base)._group_definitions,", "F06 regression")
+m("new_msg_first_child_only", ["C06"], IV, "        for child in msg.children:\n            element = self._elements_by_name.get(child.name)", "        for child in msg.children[:1]:\n            element = self._elements_by_name.get(child.name)", "only the first child of a write is applied")
+m("number_from_msg_no_conversion", ["C06"], IE, "        self.set_value(values.str_to_num(msg.value, self._definition.format))", "        self.set_value(float(msg.value.split(':')[0]))", "sexagesimal minutes/seconds dropped on write")
+m("client_submit_keeps_new_value", ["C06"], "indi/client/vectors.py", "                ch.append(el.to_new_message())\n                el.reset_new_value()", "                ch.append(el.to_new_message())", "a later submit re-sends old assignments")
+m("getprops_named_answers_all", ["C07"], DR, "                if msg.name in self._vectors:\n                    v = self._vectors[msg.name]\n                    self.send_message(v.to_def_message())", "                for k, v in self._vectors.items():\n                    self.send_message(v.to_def_message())", "a named request is answered with every definition")
+m("getprops_unnamed_first_only", ["C07", "C01"], DR, "                for k, v in self._vectors.items():\n                    self.send_message(v.to_def_message())", "                for k, v in list(self._vectors.items())[:1]:\n                    self.send_message(v.to_def_message())", "an unnamed request is answered with the first definition only")
+m("def_includes_disabled_elements", ["C07", "C01"], IV, "        elements = tuple(\n            e.to_def_message() for k, e in self._elements.items() if e.enabled\n        )", "        elements = tuple(\n            e.to_def_message() for k, e in self._elements.items()\n        )", "definitions list disabled elements")
+m("light_def_loses_group", ["C07", "C01"], IV, "            group=self.group.name,\n            label=self._definition.label,\n            state=self._state,\n            timestamp=message.now(),", "            label=self._definition.label,\n            state=self._state,\n            timestamp=message.now(),", "defLightVector lacks the group")
+m("defnumber_omits_step", ["C07"], IE, "            step=self._definition.step,\n        )", "            step=self._definition.step if self._definition.step else 0,\n        )", "control (equivalent rendering of step)")
+m("rule_skips_atmostone", ["C09"], IV, "                const.SwitchRule.AT_MOST_ONE,\n                const.SwitchRule.ONE_OF_MANY,\n            ):\n                for k, el in self._elements.items():", "                const.SwitchRule.ONE_OF_MANY,\n            ):\n                for k, el in self._elements.items():", "AtMostOne not enforced")
+m("rule_no_forced_back_on", ["C09"], IV, "                    new_value = const.SwitchState.ON\n", "                    pass\n", "last On of OneOfMany can be switched off")
+m("rule_sender_not_excluded", ["C09"], IV, "                    if el != sender and el._value == const.SwitchState.ON:\n                        el._value = const.SwitchState.OFF", "                    if el._value == const.SwitchState.ON:\n                        el._value = const.SwitchState.OFF", "control: sender switched off then set on again (equivalent)")
+m("drv_unknown_property_raises", ["C12"], DR, "            vector = self._vectors.get(msg.name)\n            if vector is None:", "            vector = self._vectors[msg.name]\n            if vector is None:", "F15 regression (unknown property)")
+m("vec_unknown_element_raises", ["C12"], IV, "            element = self._elements_by_name.get(child.name)\n            if element is None:", "            element = self._elements_by_name[child.name]\n            if element is None:", "F15 regression (unknown element)")
+m("vec_kind_mismatch_applied", ["C12"], IV, "        if new_message_class is None or not isinstance(msg, new_message_class):", "        if new_message_class is None:", "wrong-kind writes are applied")
+m("vec_conversion_errors_escape", ["C12"], IV, "            except (ValueError, TypeError, AssertionError):", "            except (TypeError,):", "bad values raise out of the driver again")
+m("router_enableblob_keyerror", ["C12"], R, "        if sender in self.blob_routing:\n            self.blob_routing[sender][message.device] = message.value", "        self.blob_routing[sender][message.device] = message.value", "F14 regression")
+m("buf_invalid_element_blocks", ["C12", "C11"], B, "                    return None, end\n        return None, None", "                    pass\n        return None, None", "F16 regression: invalid complete element blocks the stream")
